@@ -37,8 +37,17 @@ type Obligation struct {
 	Res     *SolveResult
 	Inputs  *ReplayInfo
 	tpos    token.Pos
+	modular bool      // the replay that reproduced it was the modular one (callees stubbed)
 	snap    *snapshot // heap at the obligation (replay: ghost state, fakes)
 	events  *evNode   // calls to modelled interfaces / callback roles on this path, newest first
+	firstIter []Term  // equalities saying that the loops the path is inside of are in their first iteration
+	leftLoops bool    // the path ran through a loop and left it (its effect is a havoc constrained by the invariant)
+}
+
+type loopEq struct {
+	li  *loopInfo
+	eq  Term
+	top bool
 }
 
 type loopInfo struct {
@@ -133,6 +142,14 @@ func (x *Exec) oblige(st *State, kind, detail string, goal Term, props []string,
 	}
 	o.snap = st.snap()
 	o.events = st.events
+	// only the loops the path is still inside of: a loop that was left ran its real iterations
+	for _, le := range st.firstIter {
+		if le.top && st.curBlock != nil && le.li.body[st.curBlock] {
+			o.firstIter = append(o.firstIter, le.eq)
+		} else {
+			o.leftLoops = true
+		}
+	}
 	o.Inputs = x.replay
 	x.obls = append(x.obls, o)
 }
@@ -550,7 +567,15 @@ func (x *Exec) havocLoop(st *State, fr *Frame, li *loopInfo) {
 		if !ok {
 			break
 		}
-		fr.regs[phi] = st.freshVal("phi_"+sanitize(phi.Comment), phi.Type())
+		old, had := fr.regs[phi]
+		nv := st.freshVal("phi_"+sanitize(phi.Comment), phi.Type())
+		fr.regs[phi] = nv
+		if had && len(old.L) == len(nv.L) {
+			// replay: "the arbitrary iteration is the first one" (see replay.go)
+			for i := range nv.L {
+				st.firstIter = append(st.firstIter, loopEq{li: li, eq: tEq(nv.L[i], old.L[i]), top: len(st.frames) == 1})
+			}
+		}
 	}
 	// 2. memory
 	var localRoots []Term
@@ -695,10 +720,14 @@ func (x *Exec) havocLoop(st *State, fr *Frame, li *loopInfo) {
 		}
 		sort.Strings(sorts)
 		st.prepareAlloc()
+		allocBefore := st.alloc
 		for _, s := range sorts {
+			before := st.heaps[s].name
 			st.havocHeap(s, keepFor(s))
+			st.firstIter = append(st.firstIter, loopEq{li: li, eq: tEq(st.heaps[s].name, before), top: len(st.frames) == 1})
 		}
 		st.bumpAlloc()
+		st.firstIter = append(st.firstIter, loopEq{li: li, eq: tEq(st.alloc, allocBefore), top: len(st.frames) == 1})
 	}
 	// 3. assume the invariants
 	env := x.loopEnv(st, fr, li)
@@ -712,6 +741,9 @@ func (x *Exec) havocLoop(st *State, fr *Frame, li *loopInfo) {
 
 func (x *Exec) enterBlock(st *State, b *ssa.BasicBlock, pred *ssa.BasicBlock) {
 	fr := st.top()
+	if len(st.frames) == 1 {
+		st.curBlock = b
+	}
 	// phis
 	if pred != nil {
 		idx := -1
@@ -1273,7 +1305,22 @@ func (x *Exec) sliceOp(st *State, in *ssa.Slice) {
 		x.nilCheck(st, base, describe(in.X), in.Pos())
 		arr, off, ln = base.L[0], "0", fmt.Sprint(a.Len())
 	case *types.Basic:
-		panic(unsupported("slicing a string"))
+		// s[lo:hi] of a string (bytes of the string are its characters in the model: see the
+		// assumption "strings are sequences of code points")
+		sv := base.L[0]
+		slen := "(str.len " + sv + ")"
+		slo, shi := Term("0"), Term(slen)
+		if in.Low != nil {
+			slo = x.value(st, in.Low).L[0]
+		}
+		if in.High != nil {
+			shi = x.value(st, in.High).L[0]
+		}
+		g := tAnd("(<= 0 "+slo+")", "(<= "+slo+" "+shi+")", "(<= "+shi+" "+slen+")")
+		x.oblige(st, "slicebounds", describe(in.X), g, x.spec.Props, "string slice bounds in range", in.Pos())
+		st.assume(g)
+		x.setReg(st, in, Val{T: in.Type(), L: []Term{"(str.substr " + sv + " " + slo + " (- " + shi + " " + slo + "))"}})
+		return
 	}
 	lo, hi := Term("0"), ln
 	if in.Low != nil {
